@@ -61,6 +61,8 @@ def run(P, R, tier):
     C13.fixed_taint(P, R, 'C17.a', None)
     zero_trip(P, R)
     dtype_from_all_elements(P, R)
+    _common2_ = __import__('rules.common', fromlist=['x'])
+    _common2_.masked_offsets(P, R, 'C17.f')
     from rules import common as _common2
     _common2.forward(P, R, 'C04', ['C04.a', 'C04.b', 'C04.f'], 'C17.c', 'cx never selects a missing/empty row: every row returned passed the exact test (no shortcut around it)', floor=4)
     from rules import common as _common
